@@ -1198,7 +1198,8 @@ func pinnedOracle() []*oCase {
 		mk("arith_error_status_in_expansion", "y=$(( 2 ** -1 ))\necho \"st=$?\"\n"),
 		mk("arith_array_element_assign_lost", "a=(1 2 3)\n(( a[1] = 5 ))\necho \"st=$? ${a[*]}\"\n"),
 		mk("arith_array_element_assign_lost", "a=(1 2 3)\n(( a[0]++ ))\necho \"st=$? ${a[*]}\"\n"),
-		mk("", "x=1\n(( ++x++ ))\necho \"st=$?\"\n"),
+		// bash pre-increments v before it reports the error; only the error status is compared
+		mk("", "v=1\n(( ++v++ ))\necho \"st=$?\"\n"),
 		mk("", "a=(4 5 6)\ni=1\necho \"v=$(( a[i] + a[i+1] * a[0] ))\"\necho \"st=$?\"\n"),
 		mk("", "x=3\necho \"v=$(( x++ + ++x )) $(( x-- - --x )) $((x))\"\necho \"st=$?\"\n"),
 		mk("", "echo \"v=$(( 1 ? 2 : 3 ? 4 : 5 )) $(( 0 ? 2 : 0 ? 4 : 5 )) $(( 2 ** 3 ** 2 )) $(( -2 ** 2 )) $(( 7 - 2 - 1 )) $(( 1 << 2 + 1 )) $(( 1 | 2 ^ 3 & 4 ))\"\necho \"st=$?\"\n"),
